@@ -90,7 +90,7 @@ var roleFinders = map[string]func(fn *ssa.Function) bool{
 	},
 	"(*InjectorProviderCallStmt).buildErrorHandlingStatement": func(fn *ssa.Function) bool { return fnAllocs(fn, "EmptyStmt") },
 	"(*InjectorProviderCallStmt).buildAssignmentStatement": func(fn *ssa.Function) bool {
-		return recvIs(fn, "InjectorProviderCallStmt") && fnAllocs(fn, "AssignStmt") && strings.Contains(sig(fn), "bool") && strings.HasSuffix(sig(fn), "go/ast.Stmt")
+		return fnAllocs(fn, "AssignStmt") && strings.Contains(sig(fn), "bool") && strings.HasSuffix(sig(fn), "go/ast.Stmt") && fn.Parent() == nil
 	},
 	"(*InjectorProviderCallStmt).buildWaitStatement": func(fn *ssa.Function) bool { return fnAllocs(fn, "SelectStmt") },
 	"(*InjectorProviderCallStmt).channelsWait": func(fn *ssa.Function) bool {
@@ -196,9 +196,30 @@ func resolveRole(c *Ctx, pkgPath, name string) *ssa.Function {
 	if fn := L.fn(pkgPath, name); fn != nil {
 		return fn
 	}
+	bareFallback := func() *ssa.Function {
+		bare := name
+		if i := strings.LastIndex(bare, ")."); i >= 0 {
+			bare = bare[i+2:]
+		}
+		var same []*ssa.Function
+		for _, fn := range pkgFuncs(L, pkgPath) {
+			if fn.Parent() == nil && fn.Name() == bare && fn.Origin() == nil {
+				same = append(same, fn)
+			}
+		}
+		if len(same) == 1 {
+			c.Notes = append(c.Notes, "anchor "+name+" resolved by its bare name to "+fnName(same[0]))
+			if c.RoleNames == nil {
+				c.RoleNames = map[string]string{}
+			}
+			c.RoleNames[shortFn(name)] = shortFn(same[0].String()[strings.LastIndex(same[0].String(), "/")+1:])
+			return same[0]
+		}
+		return nil
+	}
 	finder, ok := roleFinders[name]
 	if !ok {
-		return nil
+		return bareFallback()
 	}
 	var cands []*ssa.Function
 	for _, fn := range pkgFuncs(L, pkgPath) {
@@ -214,7 +235,7 @@ func resolveRole(c *Ctx, pkgPath, name string) *ssa.Function {
 		c.RoleNames[shortFn(name)] = shortFn(cands[0].String()[strings.LastIndex(cands[0].String(), "/")+1:])
 		return cands[0]
 	}
-	return nil
+	return bareFallback()
 }
 
 // shortFn turns "(*InjectorProviderCallStmt).buildWaitStatement" / "(*pkg.T).M" into "T.M" (the form tmplSite.fnName uses).
